@@ -13,13 +13,33 @@ sys.path.insert(0, REPO)
 
 
 def main(have):
-    have = set(x for x in have.split(",") if x)
+    # "sgio" / "iscsi": usable; "sgio!absent": no such module anywhere (ModuleNotFoundError); "sgio!broken": installed but
+    # not loadable (the import raises a plain ImportError, e.g. a shared library it needs is missing); default: None in
+    # sys.modules.  All but the first mean: the binding is missing.
+    spec = [x for x in have.split(",") if x]
+    have = set(x for x in spec if "!" not in x)
+    how = dict(x.split("!") for x in spec if "!" in x)
     from spec.stubs import sgio as stub_sgio, iscsi as stub_iscsi
     from spec.stubs.world import World
+    import tempfile
 
+    broken_dir = None
     for name, stub in (("sgio", stub_sgio), ("iscsi", stub_iscsi)):
         if name in have:
             sys.modules[name] = stub
+        elif how.get(name) == "absent":
+            sys.modules.pop(name, None)
+            try:
+                importlib.import_module(name)
+                raise SystemExit("a real %s binding is installed in this interpreter: the 'absent' configuration cannot be set up" % name)
+            except ImportError:
+                pass
+        elif how.get(name) == "broken":
+            sys.modules.pop(name, None)
+            broken_dir = broken_dir or tempfile.mkdtemp(prefix="c19-broken-")
+            with open(os.path.join(broken_dir, name + ".py"), "w") as fh:
+                fh.write("raise ImportError('lib%s.so.1: cannot open shared object file: No such file or directory')\n" % name)
+            sys.path.insert(0, broken_dir)
         else:
             sys.modules[name] = None  # `import name` raises ImportError: the binding is not installed
     out = []
@@ -105,6 +125,10 @@ def main(have):
         else:
             ok = res == ("raise", "NotImplementedError") and not touched
         out.append(["init_device:%s" % dev, ok, "%s %s" % (res, touched)])
+    if broken_dir:
+        import shutil
+
+        shutil.rmtree(broken_dir, ignore_errors=True)
     print("C19JSON" + json.dumps(out))
 
 
